@@ -4,6 +4,9 @@ CONSTANTS MaxDepth = 2
           Vals <- MCVals
           Limits <- LimitsL
           MaxClose = 2
+          DocAlpha <- DocsQ
+          DocLen = 3
+          DocDepth = 0
           SimLen = 0
           SimLimits <- LimitsQ
 INVARIANTS Emit
